@@ -23,6 +23,7 @@ CODES = {
     6: ('C10/publisher-closed-without-reason', 'a publisher was closed although no handler sharing it was stopped or ended (Stop is not local)'),
     7: ('C10/second-run-returned-nil', 'a second Run returned nil'),
     8: ('C10/handler-stopped-processing', 'a handler that was not stopped no longer takes messages (Stop is not local)'),
+    11: ('C10/run-never-returns-after-cancel-on-empty-router(D15)', 'Run did not return after its context was cancelled on a router without handlers'),
     9: ('C10/run-never-returns', 'Run did not return although every handler had ended / Close was called / the context was cancelled'),
 }
 
